@@ -33,6 +33,8 @@ use crate::version::Version;
 use mio::net::{TcpListener, UdpSocket};
 use mio::{Events, Poll, PollOpt, Ready, Token};
 use mio_extras::timer::Timer;
+use net2::unix::UnixTcpBuilderExt;
+use net2::TcpBuilder;
 use rand::{thread_rng, RngCore};
 
 // mio event registrations
@@ -102,8 +104,26 @@ impl Server {
                 .parse()
                 .unwrap();
 
-            let tcp_listener = TcpListener::bind(&hc_sock_addr)
-                .expect("failed to bind TCP listener for health check");
+            // Every worker owns a listener on the same port; SO_REUSEPORT lets them all bind it
+            // and has the kernel spread incoming connections across the workers
+            let tcp_listener = {
+                let builder = if hc_sock_addr.is_ipv4() {
+                    TcpBuilder::new_v4()
+                } else {
+                    TcpBuilder::new_v6()
+                }
+                .expect("failed to create TCP socket for health check");
+
+                let std_listener = builder
+                    .reuse_address(true)
+                    .and_then(|b| b.reuse_port(true))
+                    .and_then(|b| b.bind(hc_sock_addr))
+                    .and_then(|b| b.listen(1024))
+                    .expect("failed to bind TCP listener for health check");
+
+                TcpListener::from_std(std_listener)
+                    .expect("failed to register TCP listener for health check")
+            };
 
             poll.register(
                 &tcp_listener,
